@@ -51,6 +51,30 @@ CONFIG = {
              "callback outcomes ok/no/error x message lengths 0..70000 incl. 252/253/254 and 65533/65534; 2-64 concurrent connections with per-connection answers; "
              "every reply decoded by sasl.Response.Decode and by the model of the PAM reader; non-trivial = callback invoked or stream longer than 2 bytes; distinct = distinct case terms",
     ),
+    "C06": dict(
+        drivers=[("cmd/whawty-auth", "main")], run="C06", shard=2, case_type="wcase",
+        header="From Whawty Require Import Names Record Store StoreSpec Session WebApi.",
+        rule="sequences of 49 requests against the mux of newWebHandler (httptest) on a store with two admins and two users under three parameter sets: "
+             "endpoint (7) x credential (none, garbage, expired, future-dated, almost expired, lenient flag, tampered, other instance, ghost admin, user session, admin session) x "
+             "target (self, other user, other admin, non-existent, invalid, name with ':') x body shape (valid, unknown fields, trailing junk, duplicate keys, missing/null username, wrong type, "
+             "not JSON, empty body, array, empty session); update with session / right / wrong old password / both / neither / upgrade-only form; "
+             "per request: status, presence of a list, session handed out, byte-level store snapshot; non-trivial = every sequence; distinct = distinct sequence terms",
+    ),
+    "C10": dict(
+        drivers=[("cmd/whawty-auth", "main")], run="C10", shard=50, timeout=900,
+        rule="(a) cap() of every request channel and of the hooks channels, and the aliasing of the upgrade channel, read in-process and compared with the facts tools/facts extracted "
+             "from the source (Extracted.v), which instantiate the deadlock-freedom theorem; (b) adversarial load for 2.5 s (thorough 15 s) per pattern with a progress watchdog: "
+             "40 clients authenticate-vs-update on 30 upgradeable users with local upgrades, mixed operations with slow/hanging/failing hooks, upgrades off, remote upgrades to an "
+             "unreachable and to a stalling master, a 64-client authentication burst; a stall (no completed request for 4 s while requests are outstanding) is reported with the goroutine dump; "
+             "non-trivial = every case; distinct = one per pattern",
+    ),
+    "C11": dict(
+        drivers=[("cmd/whawty-auth", "main")], run="C11", shard=10, timeout=900, race=True,
+        rule="concurrent histories at the agent's Store interface: 2-8 client goroutines x 4-8 operations (authenticate, update, add, remove, set-admin) on 2-4 overlapping users with a pool of 3 passwords, "
+             "upgrades off and local (users start on non-default parameter sets), call/return times recorded, followed by a sequential read-out of every (user, password) pair; "
+             "each history is decided by a linearizability search against the sequential specification (evaluated in Coq), per user; the driver is built with -race; "
+             "non-trivial = at least two clients; distinct = distinct history terms",
+    ),
     "C07": dict(
         drivers=[("cmd/whawty-auth", "main")], run="C07", shard=2, header="From Whawty Require Import Session.",
         rule="two factory instances; tokens issued for names with and without ':' and both flags; tokens sealed by the driver with chosen plaintexts "
